@@ -183,7 +183,7 @@ class Monitor(object):
           aff = rel.get_affected_rows([q])
           if aff != depend.ALL_ROWS and row not in aff:
             out.append(('relation-does-not-cover', '%s[%s] read %s[%s] through %s; get_affected_rows([%s]) = %r'
-                        % (node, row, dnode, q, rel, q, sorted(aff)[:8]), (dnode, q)))
+                        % (node, row, dnode, q, rel, q, sorted(aff)[:8]), (dnode, q), (node, rel)))
             continue
           scratch = {}
           graph.invalidate_deps(dnode, [q], scratch, include_self=False)
